@@ -145,6 +145,8 @@ where
         // First check the cache.
         if let Some(cache) = &self.cache {
             if let Some(value) = cache.get(goal) {
+                #[cfg(chalk_verif)]
+                chalk_ir::verif::probe("rec.cache_hit");
                 debug!("solve_reduced_goal: cache hit, value={:?}", value);
                 return value;
             }
@@ -159,6 +161,8 @@ where
                 // see the corresponding section in the coinduction chapter:
                 // https://rust-lang.github.io/chalk/book/recursive/coinduction.html#mixed-co-inductive-and-inductive-cycles
                 if self.stack.mixed_inductive_coinductive_cycle_from(depth) {
+                    #[cfg(chalk_verif)]
+                    chalk_ir::verif::probe("rec.mixed_cycle");
                     return solver_stuff.error_value();
                 }
             }
@@ -197,10 +201,14 @@ where
             // worst of the repeated work that we do during tabling.
             if subgoal_minimums.positive >= dfn {
                 if subgoal_minimums.interrupted {
+                    #[cfg(chalk_verif)]
+                    chalk_ir::verif::probe("rec.interrupted_rollback");
                     debug!("solve_reduced_goal: SCC head encountered, rolling back as solving was interrupted");
                     self.search_graph.rollback_to(dfn);
                 } else if let Some(cache) = &mut self.cache {
                     self.search_graph.move_to_cache(dfn, cache);
+                    #[cfg(chalk_verif)]
+                    chalk_ir::verif::probe("rec.moved_to_cache");
                     debug!("solve_reduced_goal: SCC head encountered, moving to cache");
                 } else {
                     debug!(
@@ -259,6 +267,8 @@ where
 
             if solver_stuff.reached_fixed_point(&old_answer, &self.search_graph[dfn].solution) {
                 if old_answer != self.search_graph[dfn].solution {
+                    #[cfg(chalk_verif)]
+                    chalk_ir::verif::probe("rec.early_exit_rollback");
                     // The iteration was cut short (e.g. because the answer
                     // became ambiguous) without the answer being stable. The
                     // results of the goals that depend on this one were
@@ -270,6 +280,8 @@ where
                 return *minimums;
             }
 
+            #[cfg(chalk_verif)]
+            chalk_ir::verif::probe("rec.fixed_point_reiteration");
             // Otherwise: rollback the search tree and try again.
             self.search_graph.rollback_to(dfn + 1);
         }
